@@ -66,6 +66,12 @@ theorem gen_pose : Gen.C16.poseInit = ["self._R_matrix = np.array(R_matrix)", "s
 /-- `Pose.scale` REBINDS `_t_vec` to a new array (it is not `*=`), and no other Pose method writes an attribute -/
 theorem gen_pose_scale_rebinds : Gen.C16.poseScale = ["self._t_vec = self._t_vec * scale"] ∧
     Gen.C16.poseStores = ["scale: self._t_vec"] := by decide
+/-- how Pose stores its arrays: `np.array(<argument>)` with the dtype as given (ints stay ints, float32 stays float32 — so
+every dtype reaches `scale`), and `scale` assigns the PRODUCT (a new array of the product's floating dtype) to the
+attribute; it does not write through a slice / element / augmented assignment, which would cast back to the stored dtype -/
+theorem gen_pose_storage : Gen.C16.poseStorage = ["self._R_matrix <- np.array(R_matrix) dtype=as-given",
+      "self._t_vec <- np.array(t_vec) dtype=as-given"] ∧
+    Gen.C16.poseScaleKind = ["rebind-attribute", "self._t_vec", "self._t_vec * scale"] := by decide
 theorem gen_scale_system : Gen.C16.scaleSystemFlow = ["bs_scaled = {bs_id: copy.copy(pose) for bs_id, pose in bs_poses.items()}",
       "cf_scaled = [copy.copy(pose) for pose in cf_poses]", "(bs_scaled, cf_scaled, scale_factor)"] ∧
     Gen.C16.scaleSystemLoops = ["for pose in bs_scaled.values(): pose.scale(scale_factor)",
